@@ -33,7 +33,7 @@ func runC11(c *Ctx) {
 		return
 	}
 	defer crWorkerCheckpoint(c)()
-	c.Res.Rule = "(1) crash images as in C04 on transaction-heavy workloads (40% explicit transactions with bodies of 1-40 operations written in 1-3 Transaction.Write calls and spanning several internal table flushes, a third discarded; 10% batches larger than the write buffer, which DB.Write routes through a transaction): in every image taken after Commit returned nil the transaction is entirely present; a discarded one or one whose Commit had not been called is entirely absent; with Commit in flight entirely present or absent (head and tail marker agree, contents equal the present batches applied in order); a concurrent Put issued while the transaction is open has not returned before Commit/Discard and returns afterwards (watchdog); nested images during recovery. (2) residue: the table files a transaction spilled are gone from storage (stor.Files vs VerifDump live set) after Discard + settle, and after Close with the transaction still open + reopen. (3) failed commits: manifest write/sync failures (1-4 consecutive, with/without effect) injected into Commit; on error Discard; more writes; Close; reopen a copy: opens, every acknowledged write present, the transaction whole or absent. (4) an iterator obtained from a transaction and kept across Discard still shows what it showed (D16). (5) after Discard the file number of a spilled table is reused: reads must not come from cached blocks of the discarded table. (6) Commit waits for a table compaction after installing the transaction (level-0 count at WriteL0PauseTrigger 2-4) and that compaction fails or the DB is closed meanwhile: what Commit reports matches what is visible (nil = all, error + Discard = none or, after reopen, all), reads keep working, the files reopen. One evaluation = one reopened image (1) or one scenario (2-6); non-trivial = a transaction spilled at least one table / at least one batch issued."
+	c.Res.Rule = "(1) crash images as in C04 on transaction-heavy workloads (40% explicit transactions with bodies of 1-40 operations written in 1-3 Transaction.Write calls and spanning several internal table flushes, a third discarded; 10% batches larger than the write buffer, which DB.Write routes through a transaction): in every image taken after Commit returned nil the transaction is entirely present; a discarded one or one whose Commit had not been called is entirely absent; with Commit in flight entirely present or absent (head and tail marker agree, contents equal the present batches applied in order); a concurrent Put issued while the transaction is open has not returned before Commit/Discard and returns afterwards (watchdog); nested images during recovery. (2) residue: the table files a transaction spilled are gone from storage (stor.Files vs VerifDump live set) after Discard + settle, and after Close with the transaction still open + reopen. (3) failed commits: manifest write/sync failures (1-4 consecutive, with/without effect) injected into Commit; on error Discard; more writes; Close; reopen a copy: opens, every acknowledged write present, the transaction whole or absent. (4) an iterator obtained from a transaction and kept across Discard still shows what it showed (D16). (5) after Discard the file number of a spilled table is reused: reads must not come from cached blocks of the discarded table. (6) Commit waits for a table compaction after installing the transaction (level-0 count at WriteL0PauseTrigger 2-4) and that compaction fails or the DB is closed meanwhile: what Commit reports matches what is visible (nil = all, error + Discard = none or, after reopen, all), reads keep working, the files reopen. One evaluation = one reopened image (1) or one scenario (2-6); non-trivial = a transaction spilled at least one table / at least one batch issued. (6) trace validation: transaction-heavy concurrent runs (explicit transactions every 2-5 rounds, large batches via the transaction path) whose synchronisation events and reads are replayed through the compiled interleaving model; a sample of the crash images of (1) is decoded and recovered by the compiled durable model and compared with the reopened DB."
 	once := &crSigOnce{}
 	// ---- (2)-(5): scenarios, a small share of the budget -----------------------------------------
 	nsc := c.Scale(600, 15000)
@@ -96,6 +96,7 @@ func runC11(c *Ctx) {
 		jobs = append(jobs, job{s, r})
 	}
 	var images int64
+	leanLeft := int64(c.Scale(150, 1500))
 	for i, j := range jobs {
 		if !c.TimeLeft() || c.Hung {
 			break
@@ -110,7 +111,7 @@ func runC11(c *Ctx) {
 			defer wg.Done()
 			defer func() { <-sem }()
 			e := &crashEnv{c: c, sigPref: "Transaction:", spec: j.spec, batches: j.spec.gen(), o: j.spec.options(),
-				maxDepth: c.Scale(1, 2), nestProb: [2]int{1, 12}, usable: 4}
+				maxDepth: c.Scale(1, 2), nestProb: [2]int{1, 12}, usable: 4, leanLeft: &leanLeft, leanEvery: c.Scale(2, 20)}
 			cr := &crashRun{env: e, every: c.Scale(3, 1), maxImgs: c.Scale(2, 6), probeBlocked: true}
 			c.Guard("Transaction:crash-image:workload", j.spec, func() { cr.run(j.r) })
 			atomic.AddInt64(&images, e.nimg)
@@ -122,6 +123,33 @@ func runC11(c *Ctx) {
 	}
 	wg.Wait()
 	c.Res.Note("crash images reopened: %d", images)
+	// ---- (6): trace validation against the interleaving model C11's isolation theorems are about ----
+	// transaction-heavy concurrent runs (explicit transactions every 2-5 rounds, large batches through the
+	// transaction path), every synchronisation event and every read replayed by the compiled Conc model
+	ntr := c.Scale(6, 80)
+	for i := 0; i < ntr && c.TimeLeft() && !c.Hung; i++ {
+		r := c.R.Fork()
+		cfg := randConcCfg(r)
+		cfg.TxEvery = 2 + r.Intn(4)
+		if r.Chance(1, 2) {
+			cfg.BigEvery = 3 + r.Intn(6)
+		}
+		cr := runConc(cfg, true)
+		if len(cr.fails) > 0 {
+			c.Res.Violate("Transaction:concurrent:"+cr.sigs[0], cr.fails[0], map[string]interface{}{"config": cfg, "all": cr.fails})
+			return
+		}
+		cr.evMu.Lock()
+		evs := append([]Event(nil), cr.events...)
+		cr.evMu.Unlock()
+		crLeanMu.Lock()
+		concLines(c, evs)
+		crLeanMu.Unlock()
+		c.Res.CountN("trace", "events", len(evs))
+		for k, v := range cr.stats {
+			c.Res.CountN("activity", k, int(atomic.LoadInt64(v)))
+		}
+	}
 }
 
 // ---- shared scenario helpers ----------------------------------------------------------------------
